@@ -20,6 +20,8 @@ import PoetryVerif.Proofs.MarkerAlgSoundVerInv
 import PoetryVerif.Proofs.MarkerAlgSoundVerMk
 import PoetryVerif.Proofs.MarkerAlgSoundPv
 import PoetryVerif.Proofs.MarkerAlgSoundPfv
+import PoetryVerif.Proofs.MarkerAlgSoundPyInv
+import PoetryVerif.Proofs.PyConvPairFinal
 import PoetryVerif.Proofs.MarkerPrint
 
 set_option linter.unusedSimpArgs false
@@ -511,26 +513,47 @@ theorem python_full_version_merge_outcome {B : List Version} (hpb : ∀ e ∈ B,
       M.sem (leafEval E) r = (if im then (leafEval E l1 && leafEval E l2) else (leafEval E l1 || leafEval E l2)) ∧
       PfvOutcome l1 l2 r := verLeaf_merge_text hpb hpad hX d l1 l2 im r h1 h2 h
 
-/-- **Intersection and union on the full comparison-operator domain, relative to the pairing only**: markers over
-plain string variables, `extra`, `python_version <op> "X.Y"` and `python_full_version <op> "X.Y.Z"` leaves, in
-an environment of interpreter `X.Y.Z` defining the extras.  The only hypothesis left is `PairSound`: the
-python_version/python_full_version pairing of `_merge_single_markers` is exact between the two python fragments
-(the C11/C17 conversion proofs). -/
-theorem intersect_union_sound_full_partial {ex : List String} (hX : E.extras = some ex) {X Y Z : Nat}
-    (hE : EnvPy E X Y Z) (HP : PairSound (leafEval E) PvLeaf Pfv3Leaf) {a b r : M}
+/-- **Intersection and union preserve truth on the full comparison-operator domain, no unproved hypothesis** —
+markers over plain string variables (`==`/`!=`, and the atomic multi/union leaves the simplifier builds from
+them), `extra`, `python_version <op> "X.Y"` and `python_full_version <op> "X.Y.Z"` leaves (`<op>` one of
+`== != < <= > >=`), in an environment of interpreter `X.Y.Z` that defines the extras: every fuel, every
+`detect_recursion` stack.  All branches of `_merge_single_markers` are covered: same-name merges on each
+variable (C16 / C05 exactness), the two special `python_version` branches (C11's conversion exactness), and the
+python_version/python_full_version pairing (`pairSound_py`, the C11/C17 conversion proofs). -/
+theorem intersect_union_sound_full {ex : List String} (hX : E.extras = some ex) {X Y Z : Nat}
+    (hE : EnvPy E X Y Z) {a b r : M}
     (ha : M.Good (FullLeaf E) a) (hb : M.Good (FullLeaf E) b) :
     (mIntersect fuel stk a b = .ok r →
       M.Good (FullLeaf E) r ∧ M.validate E r = .ok (holds E a && holds E b)) ∧
     (mUnion fuel stk a b = .ok r →
       M.Good (FullLeaf E) r ∧ M.validate E r = .ok (holds E a || holds E b)) :=
   ⟨fun h => by
-      have := intersect_sound_partial (leafSpec_full hX hE HP)
+      have := intersect_sound_partial (leafSpec_full hX hE (pairSound_py hE))
         (fun l hl => fullLeaf_evaluable hX hE hl) ha hb h
       exact ⟨this.1, this.2.2⟩,
    fun h => by
-      have := union_sound_partial (leafSpec_full hX hE HP)
+      have := union_sound_partial (leafSpec_full hX hE (pairSound_py hE))
         (fun l hl => fullLeaf_evaluable hX hE hl) ha hb h
       exact ⟨this.1, this.2.2⟩⟩
+
+/-- **Inversion preserves truth on the full comparison-operator domain, no unproved hypothesis**: string and
+`extra` leaves as in `invert_sound_plain` (quotable values), and every `python_version <op> "X.Y"` /
+`python_full_version <op> "X.Y.Z"` leaf with `<op>` one of `== != < <= > >=` — `invert()` re-parses the leaf's text
+with the flipped operator (`==`↔`!=`, `<`↔`>=`, `<=`↔`>`), and the flipped clause is the complement at the
+environment's version by C05's bound semantics. -/
+theorem invert_sound_full {ex : List String} (hX : E.extras = some ex) {X Y Z : Nat}
+    (hE : EnvPy E X Y Z) {a r : M} (ha : M.Good (FullInvReady E) a) (h : a.invert = .ok r) :
+    M.Good (FullInvLeaf E) r ∧ M.validate E r = .ok (!holds E a) := by
+  have := M.invert_sound_full hX hE (pairSound_py hE) ha h
+  refine ⟨this.1, ?_⟩
+  rw [holds_is_validate E r (M.good_mono (fun l hl => fullInvLeaf_evaluable hX hE hl) r this.1)]
+  exact congrArg _ this.2
+
+/-- `python_version == "3.8"` inverts to `python_version != "3.8"`, `python_full_version < "3.10.0"` to
+`python_full_version >= "3.10.0"` -/
+example : Leaf.invert (.single (pvLeafOf .eq "==" 3 8)) = .ok (.leaf (.single (pvLeafOf .ne "!=" 3 8))) ∧
+    Leaf.invert (.single (pfvLeafOf .lt "<" 3 [10, 0])) = .ok (.leaf (.single (pfvLeafOf .ge ">=" 3 [10, 0]))) :=
+  ⟨invert_pv (by decide) 3 8, invert_pfv3 (by decide) 3 10 0⟩
 
 def exEnvFull : Env := ⟨[("python_version", "3.9"), ("python_full_version", "3.9.1"), ("sys_platform", "a")], some []⟩
 
